@@ -163,6 +163,34 @@ def edge_set_rule(ctx: Ctx, rid: str, only=None):
     enclosing container (getAllDependencies), not the own 'depends' attribute alone  (C04 R04.1; C06 R06.9 for the terminal test)."""
     repo = ctx.repo
     gad = repo.func("TaskScenario.getAllDependencies")
+    # getAllDependencies: own + every ancestor, nothing dropped
+    reads = [n for n in own_nodes(gad) if isinstance(n, ast.Call) and isinstance(n.func, ast.Attribute)
+             and n.func.attr == "get" and n.args and const_str(n.args[0]) == "depends"]
+    own = [r for r in reads if norm(r.func.value) == "self.property"]
+    anc = [r for r in reads if isinstance(r.func.value, ast.Name)]
+    walks = False
+    for w in own_nodes(gad):
+        if isinstance(w, ast.While):
+            var = norm(w.test)
+            walks = any(isinstance(s, ast.Assign) and norm(s.targets[0]) == var and norm(s.value) == f"{var}.parent" for s in w.body) \
+                and any(norm(r.func.value) == var for r in anc)
+    fdg = ctx.dep.of(gad)
+    rets = [n for n in own_nodes(gad) if isinstance(n, ast.Return)]
+    both = all({"pattr:depends", "field:parent"} <= data(fdg.deps_of(r.value)) for r in rets) and bool(rets)
+    ok = bool(own) and bool(anc) and walks and both
+    ctx.ob(rid, f"{gad.qual}: own + ancestors", gad, ok,
+           "returns the task's own dependencies and those of every enclosing container" if ok else
+           "getAllDependencies no longer collects the own list and the list of every ancestor",
+           key=f"{rid}|TaskScenario.getAllDependencies|own+ancestors")
+    # no entry is dropped on the way: the returned list is only ever extended (a de-duplication by predecessor loses the larger gap)
+    drops = [x for x in own_nodes(gad) if (isinstance(x, ast.If) and any(isinstance(y, ast.Continue) for y in ast.walk(x)))
+             or (isinstance(x, ast.Call) and isinstance(x.func, ast.Attribute) and x.func.attr in ("remove", "pop", "discard"))
+             or isinstance(x, (ast.DictComp, ast.SetComp))]
+    ctx.ob(rid, f"{gad.qual}: every collected edge is returned", (gad, drops[0] if drops else None), not drops,
+           "edges are appended / extended only" if not drops else
+           "some collected edges are skipped or removed (e.g. one entry per predecessor): a second dependency on the same task with a larger "
+           "gap, or the container's edge next to the task's own, is lost",
+           key=f"{rid}|TaskScenario.getAllDependencies|nothing dropped")
     consumers = []
     for fn in sorted(repo.all_funcs(), key=lambda f: f.key):
         if fn is gad:
@@ -220,26 +248,6 @@ def run(ctx: Ctx):
     fd = ctx.dep.of(sched)
     res = local_resolver(sched.node)
 
-    # ---------------------------------------------------------------- R04.1
-    # getAllDependencies: own + every ancestor
-    reads = [n for n in own_nodes(gad) if isinstance(n, ast.Call) and isinstance(n.func, ast.Attribute)
-             and n.func.attr == "get" and n.args and const_str(n.args[0]) == "depends"]
-    own = [r for r in reads if norm(r.func.value) == "self.property"]
-    anc = [r for r in reads if isinstance(r.func.value, ast.Name)]
-    walks = False
-    for w in own_nodes(gad):
-        if isinstance(w, ast.While):
-            var = norm(w.test)
-            walks = any(isinstance(s, ast.Assign) and norm(s.targets[0]) == var and norm(s.value) == f"{var}.parent" for s in w.body) \
-                and any(norm(r.func.value) == var for r in anc)
-    fdg = ctx.dep.of(gad)
-    rets = [n for n in own_nodes(gad) if isinstance(n, ast.Return)]
-    both = all({"pattr:depends", "field:parent"} <= data(fdg.deps_of(r.value)) for r in rets) and bool(rets)
-    ok = bool(own) and bool(anc) and walks and both
-    ctx.ob("R04.1", f"{gad.qual}: own + ancestors", gad, ok,
-           "returns the task's own dependencies and those of every enclosing container" if ok else
-           "getAllDependencies no longer collects the own list and the list of every ancestor",
-           key="R04.1|TaskScenario.getAllDependencies|own+ancestors")
     edge_set_rule(ctx, "R04.1")
 
     # ---------------------------------------------------------------- R04.2 forward
